@@ -163,7 +163,7 @@ Inductive event :=
 | LoseInterest (p : nat)      (* fill_write_buffer: nothing to request and not interested in a listed piece *)
 | QueueChoke (p : nat)        (* our own download choke queue choked the connection (receive_download_choke(true)) *)
 | QueueUnchoke (p : nat)      (* ... unchoked it again (receive_download_choke(false)) *)
-| SnapConn (p : nat) (unch : bool) (q u s c : list entry) (t : option entry) (dint dq : bool)
+| SnapConn (p : nat) (unch : bool) (q u s c : list entry) (t : option entry) (dint dq dun : bool)
 | SnapGlobal (aggr : bool) (active : list N) (completed : list bool).
 
 (* ---- DownloadMain::update_endgame ---- *)
@@ -407,7 +407,7 @@ Definition accept (s : state) (ev : event) : option state :=
       end
   | LoseInterest p | QueueChoke p | QueueUnchoke p =>
       match get_conn s p with Some _ => Some s | None => None end
-  | SnapConn p unch q u s' c' t _ _ =>
+  | SnapConn p unch q u s' c' t _ _ _ =>
       match get_conn s p with
       | Some c =>
           if Bool.eqb unch (c_unchoked c) && ents_eqb q (c_q c) && ents_eqb u (c_u c) && ents_eqb s' (c_s c)
@@ -469,6 +469,7 @@ Definition params_ok : bool :=
 Definition fix_update_interested_queues : bool := 0 <? Params.c04_update_interested_queues.
 Definition fix_have_listed_raises : bool := 0 <? Params.c04_have_listed_raises.
 Definition fix_pipe_counts_valid : bool := 0 <? Params.c04_pipe_counts_valid.
+Definition fix_choke_restores_interest : bool := 0 <? Params.c04_choke_restores_interest.
 
 Record xstate := mkX { x_s : state; x_dl : list (bool * bool) }.   (* (m_down_interested, queued) per slot *)
 
@@ -541,7 +542,8 @@ Definition xaccept (x : xstate) (ev : event) : option xstate :=
   | Unchoke p =>
       option_map (fun s' => set_dl x s' p (dint x p, dq x p || dint x p)) (accept s ev)
   | Choke p =>
-      option_map (fun s' => set_dl x s' p (dint x p, false)) (accept s ev)
+      (* a connection choked by our own queue (queued, not interested) gets its interest back in the repaired code *)
+      option_map (fun s' => set_dl x s' p (dint x p || (fix_choke_restores_interest && dq x p), false)) (accept s ev)
   | Disc p =>
       option_map (fun s' => set_dl x s' p (false, false)) (accept s ev)
   | Have p i =>
@@ -569,9 +571,9 @@ Definition xaccept (x : xstate) (ev : event) : option xstate :=
   | QueueUnchoke p =>
       match get_conn s p with
       | None => None
-      | Some c => if negb (dint x p) && dq x p then Some (set_dl x s p (true, true)) else None
+      | Some c => if dq x p then Some (set_dl x s p (true, true)) else None   (* receive_download_choke(false) *)
       end
-  | SnapConn p _ _ _ _ _ _ di q =>
+  | SnapConn p _ _ _ _ _ _ di q _ =>
       if Bool.eqb di (dint x p) && Bool.eqb q (dq x p) then option_map (fun s' => mkX s' (x_dl x)) (accept s ev) else None
   | _ => option_map (fun s' => mkX s' (x_dl x)) (accept s ev)
   end.
@@ -586,4 +588,39 @@ Fixpoint xrun_ix (x : xstate) (evs : list event) (k : nat) : nat + xstate :=
   match evs with
   | [] => inr x
   | e :: r => match xaccept x e with Some x' => xrun_ix x' r (S k) | None => inl k end
+  end.
+
+(* =====================================================================================================
+   Own download slots: m_down_choke.unchoked() per slot (the client's OWN choke queue, limited by
+   ResourceManager::max_download_unchoked). It only GATES requests (should_request's m_down_choke.choked());
+   the peer-choke rule of `accept` is untouched. QueueUnchoke / QueueChoke are the queue's decisions (observed). *)
+Record ystate := mkY { y_x : xstate; y_du : list bool }.
+Definition dun (y : ystate) (p : nat) : bool := nth p (y_du y) false.
+Definition yinit (plen total : N) (completed wanted : list bool) : ystate :=
+  mkY (xinit plen total completed wanted) [false; false; false; false].
+Definition set_du (y : ystate) (x' : xstate) (p : nat) (v : bool) : ystate := mkY x' (set_nth (y_du y) p v).
+
+Definition yaccept (y : ystate) (ev : event) : option ystate :=
+  let x := y_x y in
+  match ev with
+  | SRequest p _ _ _ => if dun y p then option_map (fun x' => mkY x' (y_du y)) (xaccept x ev) else None
+  | QueueUnchoke p => option_map (fun x' => set_du y x' p true) (xaccept x ev)
+  | QueueChoke p => if dun y p then option_map (fun x' => set_du y x' p false) (xaccept x ev) else None
+  | LoseInterest p => if dun y p then option_map (fun x' => set_du y x' p false) (xaccept x ev) else None
+  | Choke p | Join p _ | Disc p => option_map (fun x' => set_du y x' p false) (xaccept x ev)
+  | SnapConn p _ _ _ _ _ _ _ _ du =>
+      if Bool.eqb du (dun y p) then option_map (fun x' => mkY x' (y_du y)) (xaccept x ev) else None
+  | _ => option_map (fun x' => mkY x' (y_du y)) (xaccept x ev)
+  end.
+
+Fixpoint yrun (y : ystate) (evs : list event) : option ystate :=
+  match evs with
+  | [] => Some y
+  | e :: r => match yaccept y e with Some y' => yrun y' r | None => None end
+  end.
+
+Fixpoint yrun_ix (y : ystate) (evs : list event) (k : nat) : nat + ystate :=
+  match evs with
+  | [] => inr y
+  | e :: r => match yaccept y e with Some y' => yrun_ix y' r (S k) | None => inl k end
   end.
